@@ -14,6 +14,7 @@ from sa.engine.alias import binding_shapes
 def names_bound(fn):
     return sorted({n.id for n in ast.walk(fn) if isinstance(n, ast.Name) and isinstance(n.ctx, (ast.Store, ast.Del))} | {a.arg for a in ast.walk(fn) if isinstance(a, ast.arg)})
 for m in p.by_rel.values():
+    m.tree = ast.parse(m.src)  # the inventory describes the source as written (the normal forms of the loader run after the passes that consult it)
     quals = []
     locs[m.rel] = {}
     shapes[m.rel] = {}
